@@ -512,6 +512,11 @@ MUTANTS = [
          "if (td->my_task_dispatcher->m_execute_data_ext.context == td->my_arena->my_default_ctx) {")]),
     dict(name='c04-propagation-lock-dropped', prop='C04', clause='D4', edits=[
         (CD_H, "        context_state_propagation_mutex_type::scoped_lock propagation_lock(the_context_state_propagation_mutex);\n", "")]),
+    dict(name='c04-children-hint-without-fence', prop='C04', clause='D4', edits=[
+        (TGC_CPP, "        atomic_fence_seq_cst();\n    }\n    if (ctx.my_parent->my_parent) {", "    }\n    if (ctx.my_parent->my_parent) {")]),
+    dict(name='c04-fence-after-speculative-copy', prop='C04', clause='D4', edits=[
+        (TGC_CPP, "        atomic_fence_seq_cst();\n    }\n    if (ctx.my_parent->my_parent) {", "    }\n    if (ctx.my_parent->my_parent) {"),
+        (TGC_CPP, "        register_with(ctx, td); // Issues full fence\n\n", "        atomic_fence_seq_cst();\n        register_with(ctx, td); // Issues full fence\n\n")]),
     dict(name='c04-reset-elsewhere', prop='C04', clause='D2', edits=[
         (TGC_CPP, "bool task_group_context_impl::is_group_execution_cancelled(const d1::task_group_context& ctx) {\n",
          "bool task_group_context_impl::is_group_execution_cancelled(const d1::task_group_context& ctx) {\n    if (ctx.my_parent && !ctx.my_parent->my_cancellation_requested.load(std::memory_order_relaxed)) const_cast<d1::task_group_context&>(ctx).my_cancellation_requested.store(0, std::memory_order_relaxed);\n")]),
@@ -993,6 +998,12 @@ BENIGN = [
     dict(name='c16-b-line-shift-known-finding', prop='C16', edits=[(AR_CPP, "#include \"arena.h\"\n", "// a comment\n// another comment\n#include \"arena.h\"\n")]),
     dict(name='c13-b-line-shift-known-finding', prop='C13', edits=[(CPQ_H, "namespace tbb {\nnamespace detail {\nnamespace d1 {\n", "// a comment\n// another comment\nnamespace tbb {\nnamespace detail {\nnamespace d1 {\n")]),
     dict(name='c04-b-line-shift-known-finding', prop='C04', edits=[('src/tbb/thread_data.h', "class context_list : public intrusive_list<d1::intrusive_list_node> {", "// a comment\n// another comment\nclass context_list : public intrusive_list<d1::intrusive_list_node> {")]),
+    dict(name='c04-b-hint-published-by-exchange', prop='C04', edits=[
+        (TGC_CPP, "        ctx.my_parent->my_may_have_children.store(d1::task_group_context::may_have_children, std::memory_order_relaxed);\n",
+         "        ctx.my_parent->my_may_have_children.exchange(d1::task_group_context::may_have_children);\n"),
+        (TGC_CPP, "        atomic_fence_seq_cst();\n    }\n    if (ctx.my_parent->my_parent) {", "    }\n    if (ctx.my_parent->my_parent) {")]),
+    dict(name='c04-b-fence-unconditional', prop='C04', edits=[
+        (TGC_CPP, "        atomic_fence_seq_cst();\n    }\n    if (ctx.my_parent->my_parent) {", "    }\n    std::atomic_thread_fence(std::memory_order_seq_cst);\n    if (ctx.my_parent->my_parent) {")]),
     dict(name='c05-b-ratio-operands-commuted', prop='C05', edits=[('include/oneapi/tbb/blocked_range2d.h',
         "        if ( my_rows.size()*double(my_cols.grainsize()) < my_cols.size()*double(my_rows.grainsize()) ) {",
         "        if ( double(my_cols.grainsize())*my_rows.size() < double(my_rows.grainsize())*my_cols.size() ) {")]),
